@@ -76,6 +76,7 @@ func (g *genState) leaves() []*tree.Node {
 		mk("u32", func(n *tree.Node) { n.U = 0x10000 }),
 		mk("u64", func(n *tree.Node) { n.U = 0x100000000 }),
 		mk("f32", func(n *tree.Node) { n.U = 0x7f800000 }),
+		mk("f32", func(n *tree.Node) { n.U = 0x80000000 }), // -0: a value that compares equal to 0
 		mk("f64", func(n *tree.Node) { n.U = 0x8000000000000000 }),
 		mk("bin64", func(n *tree.Node) { n.Data = pay(8) }),
 		mk("bin128", func(n *tree.Node) { n.Data = pay(16) }),
